@@ -352,10 +352,10 @@ const (
 
 // Format formats the node.
 func (node *Select) Format(buf *TrackedBuffer) {
-	buf.Myprintf("select %v%s%s%s%v from %v%v%v%v%v%v%s",
+	buf.Myprintf("select %v%s%s%s%v from %v%v%v%v%v%v%v%s",
 		node.Comments, node.Cache, node.Distinct, node.Hints, node.SelectExprs,
 		node.From, node.Where,
-		node.GroupBy, node.Having, node.OrderBy,
+		node.GroupBy, node.Having, node.Trigger, node.OrderBy,
 		node.Limit, node.Lock)
 }
 
@@ -517,7 +517,11 @@ type CommonTableExpression struct {
 }
 
 func (node *CommonTableExpression) Format(buf *TrackedBuffer) {
-	buf.Myprintf("%s AS (%v)", node.Name, node.Select)
+	if node.Name.IsEmpty() {
+		buf.Myprintf("'' AS (%v)", node.Select)
+		return
+	}
+	buf.Myprintf("%v AS (%v)", node.Name, node.Select)
 }
 
 func (node *CommonTableExpression) walkSubtree(visit Visit) error {
@@ -2127,6 +2131,10 @@ const (
 
 // Format formats the node.
 func (node *JoinTableExpr) Format(buf *TrackedBuffer) {
+	if node.Strategy == LookupJoinStrategy || node.Strategy == StreamJoinStrategy {
+		buf.Myprintf("%v %s %s %v%v", node.LeftExpr, node.Strategy, node.Join, node.RightExpr, node.Condition)
+		return
+	}
 	buf.Myprintf("%v %s %v%v", node.LeftExpr, node.Join, node.RightExpr, node.Condition)
 }
 
@@ -2150,7 +2158,7 @@ type TableValuedFunction struct {
 
 // Format formats the node.
 func (node *TableValuedFunction) Format(buf *TrackedBuffer) {
-	buf.Myprintf("%v(%v)", node.Name, node.Args)
+	buf.Myprintf("%v(%v) as %v", node.Name, node.Args, node.As)
 }
 
 func (node *TableValuedFunction) walkSubtree(visit Visit) error {
@@ -3028,6 +3036,10 @@ const (
 
 // Format formats the node.
 func (node *BinaryExpr) Format(buf *TrackedBuffer) {
+	if node.Operator == ArrayElement {
+		buf.Myprintf("%v[%v]", node.Left, node.Right)
+		return
+	}
 	buf.Myprintf("%v %s %v", node.Left, node.Operator, node.Right)
 }
 
@@ -3733,7 +3745,7 @@ type Triggers []Trigger
 
 // Format formats the node.
 func (node Triggers) Format(buf *TrackedBuffer) {
-	prefix := "TRIGGER "
+	prefix := " trigger "
 	for _, n := range node {
 		buf.Myprintf("%s%v", prefix, n)
 		prefix = ", "
@@ -3774,7 +3786,7 @@ type EndOfStreamTrigger struct {
 }
 
 func (w *EndOfStreamTrigger) Format(buf *TrackedBuffer) {
-	buf.Myprintf("ON WATERMARK")
+	buf.Myprintf("ON END OF STREAM")
 }
 
 func (w *EndOfStreamTrigger) walkSubtree(visit Visit) error {
@@ -3786,7 +3798,7 @@ type DelayTrigger struct {
 }
 
 func (w *DelayTrigger) Format(buf *TrackedBuffer) {
-	buf.Myprintf("DELAY %v", w.Delay)
+	buf.Myprintf("AFTER DELAY %v", w.Delay)
 }
 
 func (w *DelayTrigger) walkSubtree(visit Visit) error {
